@@ -1,6 +1,7 @@
 package main
 
 import (
+	"strings"
 	"sort"
 
 	"golang.org/x/tools/go/ssa"
@@ -145,13 +146,7 @@ func runC16(c *Ctx) {
 		c.MP(fn, "saved only after the files were saved", succ, 1, GOk("im.localfs.Save()"))
 		c.MP(fn, "suffrage proof stored when the block changes the suffrage", succ, 1, GNil("im.sufst"), GOk("im.bwdb.SetSuffrageProof(*)"))
 	}
-	if fn := c.Need("isaac/block.(*BlockImporter).isfinished"); fn != nil {
-		if cl := c.ClosureWithCall(fn, "im.finisheds.Value(*)"); cl != nil {
-			cont := c.ReturnsD(cl, 0, "true")
-			c.MP(cl, "an item counts as finished only if recorded finished", cont, 1, GTrue("im.finisheds.Value(item.Type())#0"))
-			c.MP(cl, "an item counts as finished only if recorded at all", cont, 1, GTrue("im.finisheds.Value(item.Type())#1"))
-		}
-	}
+	isfinishedRules(c)
 	// R16.4 -----------------------------------------------------------------------------------
 	c.Rule("R16.4", "MustPass")
 	if validator != nil {
@@ -176,5 +171,53 @@ func runC16(c *Ctx) {
 	}
 	if fn := c.Need("isaac/block.isValidVoteproofsFromLocalFS"); fn != nil {
 		c.MP(fn, "voteproofs fit the manifest", c.SuccessReturns(fn), 1, GOk("base.IsValidVoteproofsWithManifest(vps, m)"))
+	}
+}
+
+// isfinishedRules (shared by C15 and C16, under the current rule): BlockImporter.isfinished answers
+// true only if every item of the block map is recorded as finished.
+func isfinishedRules(c *Ctx) {
+	fn := c.Need("isaac/block.(*BlockImporter).isfinished")
+	if fn == nil {
+		return
+	}
+	cl := c.ClosureWithCall(fn, "im.finisheds.Value(*)")
+	if cl == nil {
+		return
+	}
+	cont := c.ReturnsD(cl, 0, "true")
+	c.MP(cl, "an item counts as finished only if recorded finished", cont, 1, GTrue("im.finisheds.Value(item.Type())#0"))
+	c.MP(cl, "an item counts as finished only if recorded at all", cont, 1, GTrue("im.finisheds.Value(item.Type())#1"))
+	// the answer is a captured flag (or its negation); the walk stops early (false) only after the flag
+	// was put into its "unfinished" polarity, and the flag is never put back
+	rs := Returns(fn)
+	if !c.Floor(fn, "returns", len(rs), 1) {
+		return
+	}
+	d := c.D(RetVal(rs[0], 0))
+	flag, unfinished := "", ""
+	switch {
+	case strings.HasPrefix(d, "!var:"):
+		flag, unfinished = d[1:], "true"
+	case strings.HasPrefix(d, "var:"):
+		flag, unfinished = d, "false"
+	default:
+		c.Report(fn, "finished is a flag set by the item walk (or its negation)", c.InstrPos(rs[0]), false, d)
+		return
+	}
+	c.Report(fn, "no other answer", fn.Pos(), len(nonMatchingReturns(c, fn, 0, globEscape(d))) == 0, d)
+	stop := c.ReturnsD(cl, 0, "false")
+	c.MP(cl, "the item walk stops only after the flag was put to unfinished", stop, 1, GStored("&"+flag))
+	c.StoredIs(cl, "inside the walk the flag is only ever put to unfinished", c.StoresD(cl, "&"+flag), 1, unfinished)
+	other := nonMatchingReturns(c, cl, 0, "true", "false")
+	c.Report(cl, "the item walk answers only true/false constants", cl.Pos(), len(other) == 0, "")
+	c.Exists(fn, "every item of the block map is walked", c.CallsD(fn, "im.m.Items(func:"+c.FuncKey(cl)+")"), 1)
+	c.MP(fn, "answered only after the walk", []ssa.Instruction{rs[0]}, 1, GCalled("im.m.Items(*)"))
+	if unfinished == "false" {
+		// positive polarity: the flag starts as true
+		c.StoredIs(fn, "the flag starts as finished", c.StoresD(fn, "&"+flag), 1, "true")
+	} else {
+		c.Exists(fn, "the flag starts as its zero value (not unfinished)", c.StoresD(fn, "&"+flag), 0)
+		c.Report(fn, "the flag is not written outside the walk", fn.Pos(), len(c.StoresD(fn, "&"+flag)) == 0, "")
 	}
 }
